@@ -15,7 +15,7 @@ RULE = ('TCPCL: C01/C09 plan space with extra user calls (queue queries, idle qu
         'UDPCL: engine E6 runs with the same marshalling check and queue model. Non-trivial: at least one query answered while '
         'a transfer was queued, in progress or awaiting pop; distinct = distinct event-history digests.')
 COMPONENTS = tc.COMPONENTS
-PROBES = ('probe.query_during_transfer', 'probe.idle_true', 'probe.idle_false', 'probe.double_pop', 'wire.SESS_TERM', 'engine.tcpcl', 'engine.udpcl', 'engine.fullstack', 'engine.fullstack_tcp', 'engine.scripted', 'fault.session_restart', 'probe.second_session',
+PROBES = ('probe.query_during_transfer', 'probe.idle_true', 'probe.idle_false', 'probe.double_pop', 'wire.SESS_TERM', 'engine.tcpcl', 'engine.udpcl', 'engine.fullstack', 'engine.fullstack_tcp', 'engine.scripted', 'fault.session_restart', 'probe.second_session', 'probe.announced_length_differs',
           'probe.refuse_after_end', 'probe.refuse_in_progress', 'user.send_file', 'user.pop_file')
 ASSUMPTIONS = ['as C01', 'marshalling model agrees with dbus-python 1.3.2 on the argument shapes the agents produce (selftest fidelity)']
 CHUNK = 10
@@ -33,7 +33,9 @@ def _gen_scripted(ch):
         elif kind == 1:
             ops.append(['answer', ch.choice('how', ('ack1', 'ack1', 'ackall', 'refuse', 'refuse')), ch.choice('rsn', (0, 1, 2, 3))])
         elif kind == 2:
-            ops.append(['inbound', 1 + ch.pick('nseg', 3), ch.choice('seglen', (0, 1, 100)), ch.coin('whole', 3, 4)])
+            # the Transfer Length extension is the peer's word: any uint64, sometimes far from what the segments carry
+            ops.append(['inbound', 1 + ch.pick('nseg', 3), ch.choice('seglen', (0, 1, 100)), ch.coin('whole', 3, 4),
+                        ch.choice('announce', (None, None, None, 2**31 - 1, 2**31, 2**32 + 5, 2**63, 2**64 - 1))])
         elif kind == 3:
             ops.append(['query', ch.choice('q', ('is_sess_idle', 'is_sess_idle', 'send_bundle_get_queue', 'recv_bundle_get_queue'))])
         else:
@@ -237,10 +239,8 @@ def _execute_fullstack_tcp(plan, sched, verbose):
                 run.viols.append(('dbus-type', 'fullstack-tcp-%s:%s' % (evt[4], evt[6]), '%s %s does not conform to signature %r: args %r (%s)' % (evt[4], evt[6], evt[7], evt[8], evt[9])))
                 return run
             if evt[3] == 'escaped-exception':
-                if str(evt[2]).startswith('cl'):
-                    run.viols.append(('adaptor', 'tcp-escaped-%s@%s' % (evt[4], evt[5]), '%s escaped from %s in TCPCL agent node %s' % (evt[4], evt[5], evt[2])))
-                    return run
-                run.stats['probe.adaptor_exception'] = 1
+                # not part of the statement (C17 owns escaping exceptions, for hostile peers): counted, and judged by its consequences below
+                run.stats['probe.cl_exception' if str(evt[2]).startswith('cl') else 'probe.adaptor_exception'] = 1
             if evt[3] == 'dbus-error' and evt[6] in ('recv_bundle_pop_data', 'send_bundle_data') and not restart:
                 run.viols.append(('adaptor', 'tcp-call-failed-%s' % evt[6], 'BP-side adaptor call %s failed: %s %s' % (evt[6], evt[7], evt[8])))
                 return run
@@ -358,7 +358,7 @@ def _drive_scripted(run, plan, har, rfc9174):
                     state['final_acked'].add(tid)
                 put(dict(kind='XFER_ACK', flags=seg['flags'], transfer_id=tid, length=state['cum'][tid]))
 
-    def inbound(nseg, seglen, whole):
+    def inbound(nseg, seglen, whole, announce=None):
         if state['partial'] is not None:
             finish_inbound()
         tid = state['in_tid']
@@ -367,7 +367,9 @@ def _drive_scripted(run, plan, har, rfc9174):
         last = nseg if whole else max(1, nseg - 1)
         for six in range(last):
             flags = (rfc9174.FLAG_START if six == 0 else 0) | (rfc9174.FLAG_END if six == nseg - 1 else 0)
-            ext = [rfc9174.xfer_length_ext(total)] if six == 0 else []
+            ext = [rfc9174.xfer_length_ext(total if announce is None else announce)] if six == 0 else []
+            if announce is not None:
+                stats['probe.announced_length_differs'] = 1
             put(dict(kind='XFER_SEGMENT', flags=flags, transfer_id=tid, ext=ext, data=bytes([0x41 + tid % 20]) * seglen))
         if last < nseg or (not whole and nseg == 1):
             state['partial'] = (tid, last, nseg, seglen)
@@ -391,7 +393,7 @@ def _drive_scripted(run, plan, har, rfc9174):
         elif op[0] == 'answer':
             answer(op[1], op[2], 1 if op[1] != 'ackall' else 10**6)
         elif op[0] == 'inbound':
-            inbound(op[1], op[2], op[3])
+            inbound(op[1], op[2], op[3], op[4] if len(op) > 4 else None)
         elif op[0] == 'query':
             har.call(har.contact, op[1])
         elif op[0] == 'pop':
